@@ -28,7 +28,7 @@ PATHS = ("cwrite", "block_to_file", "to_tim", "to_dat", "to_spec", "to_fft")
 
 def REQUIRED(tier):
     return ["path:cwrite", "path:block_to_file", "path:to_tim", "path:to_dat", "path:to_spec", "path:to_fft",
-            "readback_compared", "declared_width_checked", "spy:cwrite_calls", "dtype_mismatch_cases", "multi_call_writes"]
+            "readback_compared", "declared_width_checked", "spy:cwrite_calls", "dtype_mismatch_cases", "multi_call_writes", "path:reuse_name", "reuse_name:equal_length_products"]
 
 
 def cases(tier, seed):
@@ -44,6 +44,14 @@ def cases(tier, seed):
         for dt in DTYPES:
             k += 1
             yield {"path": path, "dtype": dt, "nsamps": int(rng.integers(1, 200)), "nchans": int(rng.integers(1, 17)), "dseed": int(seed) * 7919 + k}
+    for depth in DEPTHS:   # one long gulp written in a single call (piece-wise conversion paths)
+        for dt in ("int64", "float64", "uint8" if depth <= 8 else "float32"):
+            k += 1
+            yield {"path": "cwrite", "depth": depth, "dtype": dt, "nsamps": 52001, "nchans": 8, "ncalls": 1, "view": "contig", "dseed": int(seed) * 7919 + k}
+    for path in ("cwrite", "to_tim", "to_spec", "block_to_file"):
+        for _ in range(3 if tier == "quick" else 40):
+            k += 1
+            yield {"path": "reuse_name", "via": path, "nsamps": int(rng.integers(2, 200)), "nchans": int(rng.choice([8, 16, 32])), "dseed": int(seed) * 7919 + k}
     nrand = 3000 if tier == "quick" else 40000
     for _ in range(nrand):
         k += 1
@@ -190,6 +198,70 @@ def _run_cwrite(case, ctx):
     if ctx.evaluations % 50 == 1:
         ctx.sample({"case": case, "spy": _spy["log"][:3], "file_bytes": size_after})
     os.unlink(out)
+
+
+def _run_reuse_name(case, ctx):
+    """Two different products of identical byte length written one after the other to the SAME path: the second read-back
+    must describe the second product (stale caches keyed on path/size would return the first)."""
+    from sigpyproc.block import FilterbankBlock
+    from sigpyproc.fourierseries import FourierSeries
+    from sigpyproc.header import Header
+    from sigpyproc.readers import FilReader
+    from sigpyproc.timeseries import TimeSeries
+
+    via, ns, nch = case["via"], case["nsamps"], case["nchans"]
+    rng = np.random.default_rng([case["dseed"], 8])
+    path = os.path.join(ctx.tmp, "reused_name" + {"cwrite": ".fil", "to_tim": ".tim", "to_spec": ".spec", "block_to_file": ".fil"}[via])
+    ctx.evaluated(); ctx.count("path:reuse_name")
+    prods = []
+    for rnd in range(2):
+        tsamp, tstart, dm = float(rng.choice([6.4e-5, 1e-3, 2.5e-4])) * (rnd + 1), 59000.0 + rnd * 1.5 + float(rng.random()), float(rng.integers(1, 900)) / 4 + rnd
+        def hdr(nchans, nbits, n, data_type="filterbank"):
+            return Header(filename=path, data_type=data_type, nchans=nchans, foff=-0.5, fch1=1400.0, nbits=nbits, tsamp=tsamp, tstart=tstart, nsamples=n, dm=dm, source="J0000-0000")
+        if via == "cwrite":
+            # same byte length, different depth/shape: round 0 8-bit x nch, round 1 16-bit x nch/2
+            nb, nc = (8, nch) if rnd == 0 else (16, nch // 2)
+            X = rng.integers(0, 200, size=(ns, nc)).astype(np.uint8 if nb == 8 else np.uint16)
+            fw = hdr(nc, 8, ns).prep_outfile(path, updates={"nchans": nc}, nbits=nb)
+            fw.cwrite(X.ravel()); fw.close()
+            fil = FilReader(path)
+            got = fil.read_block(0, fil.header.nsamples).data.T if fil.header.nsamples else np.zeros((0, nc))
+            meta = (fil.header.nbits, fil.header.nchans, fil.header.nsamples, fil.header.tsamp, fil.header.tstart, fil.header.dm)
+            want_meta = (nb, nc, ns, tsamp, tstart, dm)
+            same = got.shape == X.shape and np.array_equal(got, X.astype(np.float32))
+        elif via == "block_to_file":
+            X = rng.integers(0, 200, size=(nch, ns)).astype(np.float32)
+            FilterbankBlock(X, hdr(nch, 8, ns)).to_file(path)
+            fil = FilReader(path)
+            got = fil.read_block(0, fil.header.nsamples).data
+            meta = (fil.header.nbits, fil.header.nchans, fil.header.nsamples, fil.header.tsamp, fil.header.tstart, fil.header.dm)
+            want_meta = (32, nch, ns, tsamp, tstart, dm)
+            same = got.shape == X.shape and np.array_equal(got, X)
+        elif via == "to_tim":
+            x = rng.integers(0, 5000, size=ns * nch).astype(np.float32)
+            TimeSeries(x, hdr(1, 32, x.size, "time series")).to_tim(path)
+            back = TimeSeries.from_tim(path)
+            meta = (back.header.nbits, back.header.nchans, back.header.nsamples, back.header.tsamp, back.header.tstart, back.header.dm)
+            want_meta = (32, 1, x.size, tsamp, tstart, dm)
+            same = back.data.shape == x.shape and np.array_equal(back.data, x)
+        else:
+            z = (rng.integers(0, 5000, size=ns * nch) + 1j * rng.integers(0, 5000, size=ns * nch)).astype(np.complex64)
+            FourierSeries(z, hdr(1, 32, 2 * z.size, "time series")).to_spec(path)
+            back = FourierSeries.from_spec(path)
+            meta = (back.header.nbits, back.header.nchans, 2 * back.data.size, back.header.tsamp, back.header.tstart, back.header.dm)
+            want_meta = (32, 1, 2 * z.size, tsamp, tstart, dm)
+            same = back.data.shape == z.shape and np.array_equal(back.data, z)
+        prods.append(os.path.getsize(path))
+        ctx.count("readback_compared")
+        bad = [n for n, g, w in zip(("nbits", "nchans", "nsamples", "tsamp", "tstart", "dm"), meta, want_meta) if (abs(g - w) > 1e-9 * max(1.0, abs(w)))]
+        if bad or not same:
+            ctx.violation(f"reused-name-stale:{via}:{'metadata:' + ','.join(bad) if bad else 'values'}",
+                          f"product #{rnd + 1} written to an already used path read back with {dict(zip(('nbits','nchans','nsamples','tsamp','tstart','dm'), meta))}, wrote {dict(zip(('nbits','nchans','nsamples','tsamp','tstart','dm'), want_meta))}; values equal: {same}", case)
+            return
+    if prods[0] == prods[1]:
+        ctx.count("reuse_name:equal_length_products")
+    ctx.nontrivial_case(case)
+    os.unlink(path)
 
 
 def _run_block_to_file(case, ctx):
